@@ -19,6 +19,7 @@ Proved for every payload, every split into Write calls (no bound on sizes):
                                 `double_close_counterexample` for a Close that keeps its object (seeded C16-m2)
   * `reset_fresh`               a recycled reader/writer starts from the same state as a new one, whatever it
                                 processed before (also after a stream that ended in an error)
+  * `reads_reference_streams_any_blocks`  the same without the non-emptiness of the blocks (empty blocks are skipped)
   * `reads_reference_streams`   the READER model, for ANY Read buffer sizes (each ≥ 1; the consumer reads until
                                 EOF): a Spec-framed stream of encoded non-empty blocks is returned as their
                                 concatenation; an unframed block (not starting with the magic) as its payload
@@ -231,6 +232,17 @@ theorem readFrom_conserves (c : Codec) (chunks : List Bytes) (s : Src) :
       = chunks.flatten ++ s.data := by
     rw [hc, h1.2.2.2, h0.2.2.2]; simp [content, newWriter]
   simpa [close, content, hi] using this
+
+/-- READER, framed reference streams with ANY blocks — also empty ones, which `Read` skips by going on to the next
+chunk — and any buffer sizes ≥ 1 -/
+theorem reads_reference_streams_any_blocks (c : Codec) (hg : Good c) (blocks : List Bytes)
+    (hsm : ∀ b ∈ blocks, (c.enc b).length < 256 ^ 4)
+    (ks : List Nat) (hks : ∀ k ∈ ks, 1 ≤ k) (hlen : blocks.flatten.length < ks.length) :
+    readAllWith c (newReader (frame (blocks.map c.enc))) ks = some blocks.flatten := by
+  have hrep : Rep c (newReader (frame (blocks.map c.enc))) [] blocks :=
+    Rep.startFramed _ _ rfl rfl (by simp [newReader])
+  have := readAllWith_rep_any c hg ks _ [] blocks hks (by simpa using hlen) hsm hrep
+  simpa using this
 
 /-- FULL round trip, framed: every non-empty payload, every split into Write calls, every sequence of Read
 buffer sizes: what the reader returns is the payload -/
